@@ -81,6 +81,9 @@ def work(chunk_id, payload):
             r = c = 2
         F = int(rng.choice([1, 1, 2]))
         sc = calgen.Scenario(ctype, r, c, F, rng)
+        sc.prequery = rng.random() < 0.4
+        if sc.prequery and rng.random() < 0.7:
+            sc.offgrid = True
         # one-way family: multi-port standards whose zero pattern is not
         # reciprocal (isolator-like three-ports).  Such a standard makes some
         # cells the library counts as equations trivially 0 = 0, so "fewer
